@@ -134,6 +134,14 @@ impl<'a> DocGen<'a> {
         if rng.coin() {
             // line comment
             format!("// {}{}", rng.pick(&words), rng.below(100))
+        } else if self.cfg.multiline_comments && rng.chance(1, 8) {
+            // the last line of a multi-line comment holds something that looks like a line comment
+            format!(
+                "/* {}\n   see http://example.org/{} // {} */",
+                rng.pick(&words),
+                rng.below(100),
+                rng.pick(&words)
+            )
         } else if self.cfg.multiline_comments && rng.chance(1, 3) {
             format!(
                 "/* {}\n   {} \n*/",
